@@ -87,12 +87,13 @@ Qed.
 (* queue facts that survive when only AFTER-phase resumptions are added *)
 Lemma clear_mono : forall s s',
   s_now s' = s_now s -> s_mt s' = s_mt s ->
-  (forall x, In x (s_queue s') -> In x (s_queue s) \/ (e_type x = SimProcResume /\ e_phase x = AFTER)) ->
+  (forall x, In x (s_queue s') -> In x (s_queue s) \/ (e_type x = SimProcResume /\ (e_phase x = AFTER \/ (s_now s < e_time x)%Q))) ->
   during_clear s -> during_clear s'.
 Proof.
   intros s s' N M Q (C1 & C2 & C3). unfold during_clear. rewrite N, M. split; [exact C1|]. split.
   - intros (x & Hx & Tx & Ex). destruct (Q x Hx) as [Ho|(Tr & _)]; [apply C2; exists x; auto | congruence].
-  - intros (x & Hx & Px & Ex). destruct (Q x Hx) as [Ho|(_ & Pa)]; [apply C3; exists x; auto | congruence].
+  - intros (x & Hx & Px & Ex). destruct (Q x Hx) as [Ho|(_ & [Pa|Lt])]; [apply C3; exists x; auto | congruence |].
+    rewrite Ex in Lt. exact (Qlt_irrefl _ Lt).
 Qed.
 
 Lemma sealed_mono : forall (q q' : list event) (P : Prop),
@@ -117,9 +118,10 @@ Proof.
     pose proof (frame_step_effect cfg f s s' F Hh) as Ef.
     destruct (effect_new false s s' Ef) as (new & L & Fn).
     pose proof (new_no_edge false s new Fn) as Ne. pose proof (new_no_reeval false s new Fn) as Nr.
-    assert (Qn : forall x, In x (s_queue s') -> In x (s_queue s) \/ (e_type x = SimProcResume /\ e_phase x = AFTER)).
-    { intros x Hx. destruct (frame_step_bk cfg f s s' F) as [Q|pid q Q|pid c ph Q|pid m Q|pid Q]; rewrite Q in Hx; try (left; exact Hx).
-      apply q_insert_in in Hx. destruct Hx as [->|Hx]; [right; split; reflexivity | left; exact Hx]. }
+    assert (Qn : forall x, In x (s_queue s') -> In x (s_queue s) \/ (e_type x = SimProcResume /\ (e_phase x = AFTER \/ (s_now s < e_time x)%Q))).
+    { intros x Hx. destruct (frame_step_bk cfg f s s' F) as [Q|pid q Q|pid c ph Q|pid m Q|pid Q|pid xi ph Q]; rewrite Q in Hx; try (left; exact Hx).
+      - apply q_insert_in in Hx. destruct Hx as [->|Hx]; [right; split; [reflexivity | left; reflexivity] | left; exact Hx].
+      - apply q_insert_in in Hx. destruct Hx as [->|Hx]; [right; split; [reflexivity | right; simpl; apply next_tick_gt; apply extra_freq_pos] | left; exact Hx]. }
     assert (Cl : s_phase s = DURING -> during_clear s') by (intro Pd; apply (clear_mono s s' C1 C3 Qn); apply Ib; [exact Pd | left; discriminate]).
     constructor; cbn [fst snd].
     + rewrite C2. intros Pd _. exact (Cl Pd).
